@@ -239,6 +239,13 @@ pub enum CustomEvent<'a, T: 'a> {
 pub static VERIF_CUSTOM_EVENTS_DROPPED: core::sync::atomic::AtomicU64 =
     core::sync::atomic::AtomicU64::new(0);
 
+/// Verification probe (hook H7): how often the input queue overflowed, i.e. how often the forced
+/// early processing of waiting keys and of the evicted event ran (whose custom events are not
+/// delivered).
+#[cfg(kanata_verif)]
+pub static VERIF_QUEUE_OVERFLOWS: core::sync::atomic::AtomicU64 =
+    core::sync::atomic::AtomicU64::new(0);
+
 impl<T> CustomEvent<'_, T> {
     /// Update an event according to a new event.
     ///
@@ -1305,6 +1312,8 @@ impl<'a, const C: usize, const R: usize, T: 'a + Copy + std::fmt::Debug> Layout<
                 // Same overflow handling as in `event`: never silently drop a queued event,
                 // a lost release is a stuck key.
                 if let Some(overflow) = self.queue.push_back(qd) {
+                    #[cfg(kanata_verif)]
+                    VERIF_QUEUE_OVERFLOWS.fetch_add(1, core::sync::atomic::Ordering::Relaxed);
                     for i in -1..(EXTRA_WAITING_LEN as i8) {
                         self.waiting_into_hold(i);
                     }
@@ -1582,6 +1591,8 @@ impl<'a, const C: usize, const R: usize, T: 'a + Copy + std::fmt::Debug> Layout<
         } else {
             self.queue.push_back(event.into())
         } {
+            #[cfg(kanata_verif)]
+            VERIF_QUEUE_OVERFLOWS.fetch_add(1, core::sync::atomic::Ordering::Relaxed);
             for i in -1..(EXTRA_WAITING_LEN as i8) {
                 self.waiting_into_hold(i);
             }
